@@ -101,10 +101,14 @@ def run(ctx):
     for key, cs in sorted(by.items()):
         kernels = ([dist.BoxKernel(key[1][0], ctx.seed, squash=False), dist.BoxKernel(key[1][0], ctx.seed, squash=True)]
                    if key[0] == "box" else [dist.DiscKernel(key, ctx.seed)])
+        # the same policies after a clone-and-mutate history (latent / head / encoder mutations through the HPO code)
+        kernels += ([dist.BoxKernel(key[1][0], ctx.seed, squash=False, evolved=True), dist.BoxKernel(key[1][0], ctx.seed, squash=True, evolved=True)]
+                    if key[0] == "box" else [dist.DiscKernel(key, ctx.seed, evolved=True)])
         for k in kernels:
+            kcs = cs[(ctx.seed % 3)::3] if (k.evolved and quick) else cs
             for level in ("actor", "ppo", "ippo"):
-                getattr(k, "run_" + level)(cs)
-                for c in cs:
+                getattr(k, "run_" + level)(kcs)
+                for c in kcs:
                     ctx.case(_case_key(level, k.shape, c), nontrivial=_nontrivial(c))
             stats.update(k.stats)
             fails += k.fails
@@ -186,7 +190,8 @@ def replay(path):
             same, i = [c] + same, 0
         lo = max(0, min(i - 30, len(same) - 61))
         cs = same[lo:lo + 61]
-        k = dist.BoxKernel(key[1][0], seed, squash="+squash" in rp["shape"]) if key[0] == "box" else dist.DiscKernel(key, seed)
+        ev = "+evolved" in rp["shape"]
+        k = dist.BoxKernel(key[1][0], seed, squash="+squash" in rp["shape"], evolved=ev) if key[0] == "box" else dist.DiscKernel(key, seed, evolved=ev)
         getattr(k, "run_" + rp["level"].lower())(cs)
         print(f"case: {_brief(c)}   (replayed with {len(cs) - 1} neighbouring cases of TLC's grid)")
         mine = [f for f in k.fails if _brief(f.case) == _brief(c)]
